@@ -25,7 +25,27 @@ def readViews (j : Json) (k : String) : Except String (Option (List (Str × Str 
       pure (← strD e "path", ← strD e "type", ← intD e "major", ← intD e "minor")
     pure (some l)
 
+/-- whole-Spec image cases: the theorems (C14_cache_unchanged, C14_repeatable) predict one thing
+for every history: the cache image does not change and every injection equals the one on a
+fresh cache -/
+def handleImage (j : Json) : Except String Json := do
+  let obs ← getObj j "obs"
+  let p ← getBool obs "panic"
+  let unchanged ← getBool obs "cacheunchanged"
+  let rep ← getBool obs "repeatable"
+  let wb ← getBool obs "writeback"
+  let n ← getNat obs "injections"
+  let judge : Option String :=
+    if p then some "panic"
+    else if !unchanged then some "cached-spec-changed-by-injection"
+    else if !rep then some "later-injection-remembers-earlier-injection"
+    else if !wb then some "cached-spec-no-longer-writable"
+    else none
+  pure (verdict judge.isNone judge Json.null [s!"image-injections{min n 4}"])
+
 def handle : Handler := fun j => do
+  let op := match j.getObjVal? "op" with | .ok (.str s) => s | _ => "purity"
+  if op == "image" then return (← handleImage j)
   let obs ← getObj j "obs"
   let nodes ← (← getArr j "nodes").toList.mapM readDeviceNode
   let host1 ← readHostAt j "host1"
